@@ -88,6 +88,28 @@ func buildProperty(ww *conversionVisitor, node *sourcewalk.PropertyNode) (*descr
 			Options:  &descriptorpb.FieldOptions{},
 		}
 
+		// As for arrays: the rules of the map and the constraints implied by the
+		// value type (e.g. the id62 pattern) belong on the map field itself, which
+		// is where the validator and the schema reader look for them. Options on
+		// the synthetic entry's value field are neither validated nor printable.
+		valueValidate, _ := proto.GetExtension(itemDesc.Options, validate.E_Field).(*validate.FieldConstraints)
+		if valueValidate != nil || st.Map.Rules != nil {
+			mapRules := &validate.MapRules{
+				Values: valueValidate,
+			}
+			if st.Map.Rules != nil {
+				mapRules.MinPairs = st.Map.Rules.MinPairs
+				mapRules.MaxPairs = st.Map.Rules.MaxPairs
+			}
+			proto.SetExtension(fieldDesc.Options, validate.E_Field, &validate.FieldConstraints{
+				Type: &validate.FieldConstraints_Map{
+					Map: mapRules,
+				},
+			})
+			proto.ClearExtension(itemDesc.Options, validate.E_Field)
+			ww.file.ensureImport(bufValidateImport)
+		}
+
 	case *schema_j5pb.Field_Array:
 		if st.Array.Items == nil {
 			return nil, errors.New("missing array items")
